@@ -18,8 +18,8 @@ META = {
             "expressions and maps are taken (copied) exactly where a string changed; the all-to-all exchange of the printed strings in initial_sympify is verified the same way "
             "(every rank ends with the concatenation of the ranks' lists in rank order), and so is the tail of shape_to_functions that gathers the rewritten trees (the three parallel "
             "lists -- tree, string, string of the original -- are joined in rank order and stay aligned), the two proposal exchanges of sympy_simplify (change_indices / ref_indices / new_inv_subs) "
-            "and the exchange of expand_or_factor (change_vals / change_idx), all through one generic contract for gather / itertools.chain / bcast of parallel lists. The dictionary merge of initial_sympify and the scatter/gather of "
-            "check_results are not lifted deductively; they are covered by the structural obligations and the bounded runs.",
+            "and the exchange of expand_or_factor (change_vals / change_idx), all through one generic contract for gather / itertools.chain / bcast of parallel lists. check_results: the hand-out of the functions to verify (every rank receives functions, map rows and -- through np.array_split, a second splitting mechanism -- matches of the SAME positions "
+            "LO(r)..LO(r+1)-1 of the shuffled list). The dictionary merge of initial_sympify and the gather of check_results' findings are not lifted deductively; they are covered by the structural obligations and the bounded runs.",
     "note": "A-mpi (stand-in delivers collectives in rank order like MPI), A-hash (hash seed fixed per run). Bounded: core_maths/ext_maths, complexities in evidence.",
     "technique": "contract-based deductive verification of the partition function + bounded multi-process stand-in of generation",
 }
@@ -58,6 +58,17 @@ def check(run):
         st6, failed6, _e6 = D.verify_function(run, "generation/simplifier.py", qual_, mk_, timeout_ms=10000, tag=tag_,
                                               note="region: gather / itertools.chain on the root / bcast of parallel per-rank lists (generic SPMD contract: joined in rank order, aligned)")
         failed3 = list(failed3) + list(failed6)
+    for r in (True, False):
+        for mk_, tag_, note_ in ((c_spmd.check_results_distribute_contract, "hand-out", "region: split_idx, gathers of the slice bounds, slicing on the root, scatter of functions and map rows"),
+                                 (c_spmd.check_results_matches_contract, "hand-out of matches", "region: matches[shufidx], np.array_split (A-numpy), scatter")):
+            st8, failed8, _e8 = D.verify_function(run, "generation/simplifier.py", "check_results", (lambda mk_=mk_, r=r: mk_(r)), timeout_ms=10000,
+                                                  tag="%s, %s" % (tag_, "root" if r else "other ranks"), note=note_)
+            failed3 = list(failed3) + list(failed8)
+    if D.canary(run, "generation/simplifier.py", "check_results", (lambda: c_spmd.check_results_distribute_contract(True))) is False:
+        raise RuntimeError("canary verified: engine vacuous on the hand-out region of check_results")
+    st7, failed7, _e7 = D.verify_function(run, "generation/simplifier.py", "expand_or_factor", c_spmd.expand_or_factor_apply_contract, timeout_ms=10000, tag="apply",
+                                          note="region: the loop writing the joined changes back into the dictionary (distinct keys, every index listed once)")
+    failed3 = list(failed3) + list(failed7)
     if D.canary(run, "generation/simplifier.py", "sympy_simplify", (lambda: c_spmd.sympy_simplify_gather_contract(0, True))) is False:
         raise RuntimeError("canary verified: engine vacuous on the gather region of sympy_simplify")
     lfailed = D.prove_lemmas(run, "make_changes: slice starts", c_spmd.lo_lemmas())
